@@ -108,6 +108,10 @@ func WithDecls(t *rapid.T, s *Spec) {
 		}
 		if rapid.IntRange(0, 2).Draw(t, "tag") == 0 {
 			tm.Tag = pick()
+			// the tag of a token may also be given by a %type line
+			if !tm.IsLit() && rapid.IntRange(0, 3).Draw(t, "tagviatype") == 0 {
+				tm.TagViaType = true
+			}
 		}
 		if !tm.IsLit() && rapid.IntRange(0, 2).Draw(t, "code") == 0 {
 			var code int
@@ -170,7 +174,17 @@ func (s *Spec) SetLang(lang string) {
 			fmt.Fprintf(&u, "\t%s :number;\n", f)
 		}
 		s.Prologue = "\n\"use strict\";\n"
+		s.Prologue2 = ""
+		if s.TwoPrologues {
+			s.Prologue = "\n\"use strict\";\nlet vFirstBlock = 1\n"
+			s.Prologue2 = "\nlet vSecondBlock = vFirstBlock + 1\n"
+		}
 		s.Union = u.String()
+		defer func() {
+			if s.EOFAlias != "" {
+				s.Epilogue += "const vEndMarkerAlias :number = " + s.EOFAlias + "\n"
+			}
+		}()
 		s.Epilogue = "\nfunction GetToken(input :string, model:{ValType :ValType, pos :number}) :number {\n\tconst rem = 7 % 3 // 100%\n\treturn rem - 2\n}\n"
 		return
 	}
@@ -181,6 +195,15 @@ func (s *Spec) SetLang(lang string) {
 		fmt.Fprintf(&u, "\t%s int\n", f)
 	}
 	s.Prologue = DefPrologue
+	s.Prologue2 = ""
+	if s.TwoPrologues {
+		// each block is written the usual way: on lines of its own
+		s.Prologue = "\npackage main\n\nimport \"fmt\"\n\nvar _ = fmt.Sprint\n"
+		s.Prologue2 = "\nvar vSecondBlock = 1\n"
+	}
 	s.Union = u.String()
 	s.Epilogue = DefEpilogue
+	if s.EOFAlias != "" {
+		s.Epilogue += "\nvar _ = " + s.EOFAlias + "\n"
+	}
 }
